@@ -14,7 +14,9 @@ CLAIMS = {
     "C01": ("static effect analysis + symbolic layout agreement",
             "PURE (no state outlives a query), LAYOUT L1-L3 (width tables, slot bookkeeping, per-feature block confinement, "
             "grains (un)packing), XDEP (no dependence on the request list as a whole), FWD (single-property members), 2D "
-            "wrapper bookkeeping: structural facts that entail history/batching independence and the announced layout",
+            "wrapper bookkeeping, XDEP.carried (no pre-loop local carries a value from one property of the request to the next), PURE.io (no "
+            "file/environment access), C/C++ interface wrappers as additional roots: structural facts that entail history/batching "
+            "independence and the announced layout",
             "§3.1-3.3, §3.9, §4 C01"),
     "C10": ("twin-block and sibling cross-check + interpolation-shape analysis + table provenance",
             "kind twin blocks of the segment parser and section defaults (identical after kind substitution, same origin, order kept), "
@@ -24,14 +26,17 @@ CLAIMS = {
     "C11": ("sign-domain abstract interpretation + computer-algebra proof of the interpolant + merge-structure analysis",
             "approx reflexive over {-,0,+} (known finding: false at 0), corner/user point merge structure (same-point overwrite at "
             "pair_i/2, append of (value,x,y), degree conversion), symbolic proof that the in-triangle interpolant is the affine function "
-            "through the triangle's vertices, vertex pairing, min/max over all values, full-scan fallback. Delaunay triangulation and "
-            "tolerance arithmetic are not decided",
+            "through the triangle's vertices, acceptance region = closed triangle + slack proportional to machine epsilon, vertex pairing, "
+            "min/max over all values, full-scan fallback, consumers pair each local depth with its own surface. Delaunay triangulation "
+            "is not decided",
             "§3.13, §3.6, §4 C11"),
     "C12": ("validation-discipline analysis (size facts vs. element accesses, dominance of input gates)",
             "A2: every element access to an input-derived member vector on the query path is covered by a release-active size "
             "fact (schema minItems / WBAssertThrow / resize); A1: relied-upon length checks are not debug-only; A3/A4: no "
             "constant-true WBAssertThrow, string dispatch ends in a release-active rejection and agrees with the schema; G3: JSON "
-            "parse, is-object and schema gates dominate every normal return of Parameters::initialize, version check first; A5",
+            "parse, is-object and schema gates dominate every normal return of Parameters::initialize, version check first; A5; SCHEMA "
+            "(required/closed/keys/writers: no schema path stored twice, points declare minItems=maxItems=dim); JSON.order (no member "
+            "picked by position)",
             "§3.7, §3.4, §4 C12"),
     "C13": ("loop-shape and recursion-table analysis",
             "LOOP: every loop on the query path has a bounded shape, the three call-graph cycles match the frozen recursion "
@@ -69,7 +74,9 @@ CLAIMS.update({
     "C02": ("control-dependence (extent guard) + effect analysis + operation algebra + fold-shape analysis",
             "fold order (single forward loop, list built in file order, no other writer), G1 (every feature write under one extent test "
             "that consults geometry only) which with PURE entails that a non-covering feature has no influence, operation algebra and "
-            "string mapping, R1 (every model honours its operation; new value independent of the painted value), per-kind model folds",
+            "string mapping, R1 (every model honours its operation; new value independent of the painted value), per-kind model folds, "
+            "FOLD.seed (painted values are only copied element-for-element or handed to models; known finding: z velocity seed of slab "
+            "and fault), TAG.unique (tags interned by full string equality)",
             "§3.4, §3.1, §3.6, §4 C02"),
     "C03": ("algebraic normal form of the initial blocks + key provenance + control dependence",
             "background blocks (adiabat Tp*exp(alpha*g*depth/cp), 0, zeros, -1, (0,0,0)), constants assigned only from the entry of their own "
@@ -83,7 +90,9 @@ CLAIMS.update({
     "C05": ("sibling cross-check in normal form + model-level dataflow rules + computer-algebra comparison of simple closed forms",
             "SIB over all replicated model classes with a frozen table of explained differences, R1, G4/G2 (inclusive two-sided range "
             "guard), N1 (sentinel overrides: tested variable = replaced variable, world's constant / adiabat, no dead override), closed "
-            "forms of uniform/adiabatic/linear. Chapman, mass-conserving, tian2019 recipes are not decided",
+            "forms of uniform/adiabatic/linear, cooling models, Gaussian plume, smooth composition blend; local depth bounds used once "
+            "defined (DEP.surfaces.local); distance and velocity of the cooling age from one ridge candidate. Chapman, mass-conserving, "
+            "tian2019 recipes are not decided",
             "§3.5, §3.6, §4 C05"),
     "C06": ("normalised membership relations + call-site agreement + sibling cross-check",
             "slab/fault membership predicates over (distance from plane, distance along plane), inclusive depth gate, agreement of the "
@@ -100,8 +109,9 @@ CLAIMS.update({
             "§3.10, §3.4, §4 C07"),
     "C08": ("who-may-call + alias-wrapper shape + twin-block comparison",
             "ONLY the clause 'a point described with longitude L or L+-360 gets the same answer': shape and exclusive use of the alias "
-            "wrappers, frozen list of alias-aware sites, point/alias twin blocks of the ridge-distance routine identical under 1->2. "
-            "Translation/rotation/longitude-offset invariance (real arithmetic in every kernel) is not decided",
+            "wrappers (every exit of the spherical branch tries both aliases), frozen list of alias-aware sites, point/alias twin blocks of "
+            "the ridge-distance routine identical under 1->2, periodic start value of the spherical Bezier search; plus the closed forms of "
+            "the Point distance kernels (invariant by inspection). Invariance of the remaining kernels (real arithmetic) is not decided",
             "§3.5, §4 C08"),
     "C09": ("algebraic normal form of the cross-section map + layout agreement + dominance of the refusal",
             "direction vector, Cartesian and spherical 2D->3D point map, degree conversion, release-active refusal as first statement, "
@@ -111,11 +121,12 @@ CLAIMS.update({
 
 CLAIMS.update({
     "C19": ("computer-algebra identity + interval check + structural rule",
-            "THREE clauses only: the closest-point search's cubic coefficients (vector and scalar form) expand to the Bernstein form of "
+            "Structural/algebraic clauses only: the closest-point search's cubic coefficients (vector and scalar form) expand to the Bernstein form of "
             "BezierCurve::operator() and the reported point is that cubic at the reported parameter; the acos clamp of the great-circle "
             "distance is the identity on [-1,1]; kd-tree search structure (near child unconditional, far child pruned on the split-axis "
-            "difference, same mid in build and search). Nearest-ness, polygon exactness, Newton convergence, conversion round trip are "
-            "not decided",
+            "difference, same mid in build and search, both search functions); Cartesian<->spherical round trip as an identity; closed forms "
+            "of the Point distance kernels; closed, twin-symmetric on-segment test of the polygon routine; the Bezier result record is "
+            "stored as a whole. Nearest-ness, polygon exactness beyond the boundary test, Newton convergence are not decided",
             "§3.6, §3.13, §4 C19"),
 })
 
